@@ -33,6 +33,7 @@ Judge(e, term) ==
   ELSE IF e.error THEN Fail("crash", ToString(<<e.op, e.cls, e.msg>>))
   ELSE IF e.model_fp_before # e.model_fp_after THEN Fail("model-mutated", ToString(<<e.op, l>>))
   ELSE IF e.params_fp_before # e.params_fp_after THEN Fail("params-mutated", ToString(<<e.op, l>>))
+  ELSE IF e.args_fp_before # e.args_fp_after THEN Fail("arguments-mutated", ToString(<<e.op, l>>))
   ELSE IF \E pr \in seen : pr[1] = term /\ pr[2] # e.digest
      THEN Fail("same-term-different-result", ToString(<<"event", l, "op", e.op, "f", e.f, "jit", e.jit, "term", term>>))
   ELSE <<"run">>
